@@ -10,6 +10,7 @@ pub struct Generator {
 }
 
 impl Generator {
+    #[cfg_attr(kani, kani::ensures(|r: &Self| verif_kani_generator::new_post(r, id, loc, dimensionality)))]
     pub(super) fn new(id: usize, loc: DVec3, dimensionality: Dimensionality) -> Self {
         let mut loc = loc;
         match dimensionality {
@@ -33,3 +34,7 @@ impl Generator {
         self.loc
     }
 }
+
+#[cfg(kani)]
+#[path = "/verif/kani/generator_priv.rs"]
+mod verif_kani_generator;
